@@ -1360,10 +1360,6 @@ Lemma masks_all x : Z.land x VMASK = fv x * 4 /\ Z.land x HW = fw x /\ Z.land x 
 Proof. split; [apply land_vmask|split; [apply land_hw|apply land_hn]]. Qed.
 Lemma generation_counts s : reach s -> wfw (word s) /\ 0 <= gfull s /\ fg (word s) = gfull s mod 4294967296.
 Proof. intros R. apply (inv_reach s R). Qed.
-Lemma reusable s t e s' : reach s -> valid_tid t -> gstep s t e = Some s' -> reach s' /\ Inv1 s' /\ Inv2 s'.
-Proof.
-  intros R Vt Hs. assert (R' : reach s') by (eapply reach_gstep; eauto). split; [exact R'|apply inv_reach; exact R'].
-Qed.
 Lemma sites_all :
   canon model_sites_enter = canon group_enter_sites /\ canon model_sites_leave = canon group_leave_sites /\
   canon model_sites_wait = canon group_wait_sites /\ canon model_sites_wait_slow = canon group_wait_slow_sites /\
@@ -1409,4 +1405,284 @@ Lemma wz_reset s t e s' : pcs s t = PIdle -> ev_kind e DVU_CALL = true -> ea e =
 Proof.
   intros Hp K E Hs. unfold gstep in Hs. rewrite Hp in Hs. cbn [tstep geffect] in Hs. rewrite K, E in Hs. cbn in Hs.
   apply Some_inj in Hs. subst s'. sset. apply upd_same.
+Qed.
+
+(* ================= invariant 4: the trap states are never entered (client contract: Group.geffect has no successor for an
+   over-enter / an unbalanced leave), a futex wait without timeout is never told ETIMEDOUT, detached continuations are real == *)
+Definition T4p (p : pc) : Prop :=
+  match p with
+  | PCrash => False
+  | PSlowLoad tmo _ rc => rc = ETIMEDOUT -> tmo <> FOREVER
+  | _ => True
+  end.
+Definition Inv4 (s : gst) : Prop := (forall t, T4p (pcs s t)) /\ (forall t i p, In (i, p) (held s t) -> p <> 0).
+Lemma Inv4_init : Inv4 init_state.
+Proof. split; [intros t; exact I|intros t i p []]. Qed.
+
+Lemma T4p_wake_tail k x : T4p (wake_tail k x).
+Proof. unfold wake_tail. destruct (nz _); [exact I|destruct k; exact I]. Qed.
+Lemma T4p_wake_entry k x : T4p (wake_entry k x).
+Proof. unfold wake_entry. destruct (nz _); [exact I|apply T4p_wake_tail]. Qed.
+Lemma T4p_lv_loop_entry k x : T4p (lv_loop_entry k x).
+Proof. unfold lv_loop_entry. destruct (_ =? _); [apply T4p_wake_entry|exact I]. Qed.
+Lemma T4p_after_add k x : fv x <> 0 -> T4p (after_add k x).
+Proof.
+  intros V. rewrite after_add_spec. destruct (_ =? 1073741823); [apply T4p_lv_loop_entry|].
+  destruct (Z.eqb_spec (fv x) 0); [contradiction|destruct k; exact I].
+Qed.
+Lemma T4p_wt_entry tmo x : wfw x -> T4p (wt_entry tmo x).
+Proof.
+  intros W. rewrite (wt_entry_spec tmo x W). destruct (_ =? 0); [exact I|]. destruct (_ =? 0); [exact I|].
+  destruct (_ =? 1); exact I.
+Qed.
+Lemma T4p_nf_entry x : T4p (nf_entry x).
+Proof. rewrite nf_entry_spec. destruct (_ =? 0); [apply T4p_wake_entry|exact I]. Qed.
+
+Section Arith5.
+Local Ltac Zify.zify_post_hook ::= Z.div_mod_to_equations.
+Lemma land_vmask_u32 w : wfw w -> Z.land (u32 w) VMASK = Z.land w VMASK.
+Proof. intros W. rewrite !land_vmask. unfold fv, u32, wfw in *. lia. Qed.
+End Arith5.
+
+Lemma gstep_frame s t e s' u : gstep s t e = Some s' -> u <> t -> pcs s' u = pcs s u /\ held s' u = held s u.
+Proof.
+  intros Hs Ne. destruct (gstep_inv _ _ _ _ Hs) as (p' & s1 & _ & Hg & ->). clear Hs. sset. rewrite upd_other by exact Ne.
+  assert (X : pcs s1 = pcs s /\ (held s1 = held s \/ exists l, held s1 = upd (held s) t l)).
+  { destruct (pcs s t); cbn [geffect] in Hg;
+      repeat (match type of Hg with
+              | (if ?c then _ else _) = Some _ => destruct c
+              | (match ?x with _ => _ end) = Some _ => destruct x
+              | None = Some _ => discriminate Hg
+              end);
+      apply Some_inj in Hg; subst s1;
+      repeat (match goal with |- context [if ?c then _ else _] => destruct c end); sset;
+      (split; [reflexivity|first [left; reflexivity|right; eexists; reflexivity]]). }
+  destruct X as (A & B). rewrite A. split; [reflexivity|].
+  destruct B as [-> |(l & ->)]; [reflexivity|apply upd_other; exact Ne].
+Qed.
+
+Lemma step4 s t e s' : Inv1 s -> Inv2 s -> Inv4 s -> gstep s t e = Some s' -> Inv4 s'.
+Proof.
+  intros HI1 HI2 (HT & HH) Hs. pose proof HI1 as ((W & _) & HT1). pose proof (HT1 t) as Ht1. unfold T1 in Ht1.
+  pose proof HI2 as (_ & (_ & _ & _ & _ & _ & _ & _ & _ & Ip) & _).
+  assert (Others : forall u, u <> t -> T4p (pcs s' u) /\ (forall i p, In (i, p) (held s' u) -> p <> 0)).
+  { intros u Ne. destruct (gstep_frame _ _ _ _ u Hs Ne) as (A & B). rewrite A, B. split; [apply HT|apply HH]. }
+  destruct (gstep_inv _ _ _ _ Hs) as (p' & s1 & Hts & Hg & ->). clear Hs.
+  assert (Mover : T4p p' /\ (forall i p, In (i, p) (held (set_pc s1 t p') t) -> p <> 0)).
+  { pose proof (HT t) as Ht. pose proof (HH t) as Hh.
+    destruct (pcs s t) eqn:Hpc; cbn [tstep] in Hts; cbn [geffect] in Hg; cbn [T1p] in Ht1; cbn [T4p] in Ht.
+    - (* PIdle *)
+      destruct (ev_kind e DVU_CALL).
+      + assert (Hh' : forall i p, In (i, p) (held (set_pc s1 t p') t) -> p <> 0).
+        { destruct (ea e =? OP_WAIT); apply Some_inj in Hg; subst s1; exact Hh. }
+        split; [|exact Hh'].
+        destruct ((ea e =? OP_ENTER) || (ea e =? OP_ASYNC)); [injection Hts as <-; exact I|].
+        destruct (ea e =? OP_LEAVE); [injection Hts as <-; exact I|].
+        destruct (ea e =? OP_WAIT); [injection Hts as <-; exact I|].
+        destruct (ea e =? OP_NOTIFY); [injection Hts as <-; exact I|discriminate].
+      + destruct (is_add e).
+        * injection Hts as <-. crack Hg. apply andb_true_iff in C as [C0 C]. apply Z.eqb_eq in C0. apply negb_true_iff in C.
+          rewrite vzero_fv in C. apply Z.eqb_neq in C. split; [apply T4p_after_add; rewrite C0; exact C|].
+          destruct (_ =? V1); apply Some_inj in Hg; subst s1; exact Hh.
+        * crack Hts. injection Hts as <-. apply Some_inj in Hg; subst s1. split; [exact I|exact Hh].
+    - contradiction.
+    - (* PEnter *)
+      crack Hts. injection Hts as <-. crack Hg. apply andb_true_iff in C0 as [C1 C0]. apply Z.eqb_eq in C1. apply negb_true_iff in C0.
+      apply Some_inj in Hg; subst s1. split; [|exact Hh]. rewrite C1, (land_vmask_u32 _ W), C0. exact I.
+    - crack Hts. injection Hts as <-. apply Some_inj in Hg; subst s1. split; [exact I|exact Hh].
+    - (* PLeave *)
+      crack Hts. injection Hts as <-. crack Hg. apply andb_true_iff in C0 as [C1 C0]. apply Z.eqb_eq in C1. apply negb_true_iff in C0.
+      rewrite vzero_fv in C0. apply Z.eqb_neq in C0. split; [apply T4p_after_add; rewrite C1; exact C0|].
+      destruct (_ =? V1); apply Some_inj in Hg; subst s1; exact Hh.
+    - (* PLvLoop *)
+      crack Hts. injection Hts as <-. crack Hg. split.
+      + destruct (eok e =? 1); [apply T4p_wake_entry|apply T4p_lv_loop_entry].
+      + destruct (word s =? old); [destruct (nz _)|]; apply Some_inj in Hg; subst s1; exact Hh.
+    - crack Hts. injection Hts as <-. apply Some_inj in Hg; subst s1. split; [destruct (_ =? _); exact I|exact Hh].
+    - crack Hts. injection Hts as <-. apply Some_inj in Hg; subst s1. split; [exact I|exact Hh].
+    - (* PSnapTail *)
+      crack Hts. injection Hts as <-. crack Hg. apply Some_inj in Hg; subst s1. split; [exact I|].
+      sset. rewrite upd_same. exact Ip.
+    - (* PFire *)
+      crack Hts. injection Hts as <-. destruct (held s t) as [|[i ptr] rest] eqn:Hh'; [discriminate|]. crack Hg.
+      apply Some_inj in Hg; subst s1. split; [destruct (_ =? _); [apply T4p_wake_tail|exact I]|].
+      sset. rewrite upd_same. intros j p Hj. apply (Hh j p). right. exact Hj.
+    - crack Hts. injection Hts as <-. apply Some_inj in Hg; subst s1. split; [destruct k; exact I|exact Hh].
+    - (* PWtLoad *)
+      crack Hts. injection Hts as <-. crack Hg. apply Z.eqb_eq in C0. apply Some_inj in Hg; subst s1.
+      split; [apply T4p_wt_entry; rewrite C0; exact W|exact Hh].
+    - (* PWtCas *)
+      crack Hts. injection Hts as <-. crack Hg. apply andb_true_iff in C0 as [C1 _]. apply Z.eqb_eq in C1. split.
+      + destruct (eok e =? 1); [exact I|apply T4p_wt_entry; rewrite C1; exact W].
+      + destruct (eok e =? 1); apply Some_inj in Hg; subst s1; exact Hh.
+    - (* PSlow *)
+      assert (P : T4p p').
+      { destruct (ev_kind e DV_FUTEX_WAIT && (eoff e =? OFF_GEN) && (ea e =? gen) && (eb e =? (if tmo =? FOREVER then 0 else 1)));
+          [injection Hts as <-; exact I|]. crack Hts. injection Hts as <-. destruct (_ =? _); exact I. }
+      split; [exact P|]. destruct (ev_kind e DV_FUTEX_WAIT); [apply Some_inj in Hg; subst s1; exact Hh|].
+      crack Hg. apply Some_inj in Hg; subst s1. exact Hh.
+    - (* PSleep *)
+      crack Hts. injection Hts as <-. destruct ((tmo =? FOREVER) && (eb e =? ETIMEDOUT)) eqn:X; [discriminate Hg|].
+      apply Some_inj in Hg; subst s1. split; [|exact Hh]. cbn [T4p]. intros E F. rewrite E, F in X. discriminate X.
+    - (* PSlowLoad *)
+      crack Hts. injection Hts as <-. crack Hg. apply Some_inj in Hg; subst s1. split; [|exact Hh].
+      destruct (_ =? _); [destruct (_ =? _)|]; exact I.
+    - crack Hts. injection Hts as <-. apply Some_inj in Hg; subst s1. split; [exact I|exact Hh].
+    - crack Hts. injection Hts as <-. crack Hg. apply Some_inj in Hg; subst s1. split; [destruct (_ =? _); exact I|exact Hh].
+    - crack Hts. injection Hts as <-. apply Some_inj in Hg; subst s1. split; [exact I|exact Hh].
+    - (* PNfLoad *)
+      crack Hts. injection Hts as <-. crack Hg. split; [apply T4p_nf_entry|].
+      destruct (is_presnap _); apply Some_inj in Hg; subst s1; exact Hh.
+    - (* PNfCas *)
+      crack Hts. injection Hts as <-. crack Hg. split; [destruct (eok e =? 1); [exact I|apply T4p_nf_entry]|].
+      destruct (eok e =? 1); [|destruct (is_presnap _)]; apply Some_inj in Hg; subst s1; exact Hh. }
+  destruct Mover as (M1 & M2). split.
+  - intros u. destruct (Z.eq_dec u t) as [->|Ne]; [sset; rewrite upd_same; exact M1|apply Others; exact Ne].
+  - intros u. destruct (Z.eq_dec u t) as [->|Ne]; [exact M2|apply Others; exact Ne].
+Qed.
+
+Theorem inv4_reach s : reach s -> Inv4 s.
+Proof.
+  intros R. induction R as [s H|s [t e] s' R IH (_ & Hs)]; [subst; apply Inv4_init|]. cbn in Hs.
+  destruct (inv_reach s R) as (H1 & H2). eapply step4; eauto.
+Qed.
+(* the model has no state in which the library has trapped: executions of clients that over-enter or leave an empty
+   group end at the step before (Group.geffect has no successor there) *)
+Lemma no_crash_state s t : reach s -> pcs s t <> PCrash.
+Proof. intros R E. destruct (inv4_reach s R) as (H & _). specialize (H t). rewrite E in H. exact H. Qed.
+
+(* a non-zero result in a reachable state: only a zero timeout, the ETIMEDOUT of a TIMED futex wait, or a deadline that
+   had already passed when the remaining time was computed (never for DISPATCH_TIME_FOREVER) *)
+Lemma wait_nonzero_only_timed s t e s' v : reach s -> gstep s t e = Some s' -> pcs s' t = PRetV v -> v <> 0 ->
+  match pcs s t with
+  | PWtLoad tmo | PWtCas tmo _ _ => tmo = 0
+  | PSlow tmo _ => tmo <> FOREVER /\ ev_kind e DV_FUTEX_WAIT = false
+  | PSlowLoad tmo _ rc => rc = ETIMEDOUT /\ tmo <> FOREVER
+  | _ => False
+  end.
+Proof.
+  intros R Hs Hp Hv. pose proof (gstep_tstep _ _ _ _ Hs) as Ht. rewrite Hp in Ht.
+  pose proof (nonzero_only_by_timeout _ _ _ Ht Hv) as N. destruct (inv4_reach s R) as (H4 & _). specialize (H4 t).
+  destruct (pcs s t); try exact N. cbn [T4p] in H4. split; [exact N|apply H4; exact N].
+Qed.
+Definition wait_tmo (p : pc) : option Z :=
+  match p with
+  | PWtLoad tmo | PWtCas tmo _ _ | PSlow tmo _ | PSleep tmo _ | PSlowLoad tmo _ _ => Some tmo
+  | _ => None
+  end.
+Lemma wait_forever_returns_zero s t e s' v : reach s -> gstep s t e = Some s' ->
+  wait_tmo (pcs s t) = Some FOREVER -> pcs s' t = PRetV v -> v = 0.
+Proof.
+  intros R Hs Hw Hp. destruct (Z.eq_dec v 0) as [E|E]; [exact E|exfalso].
+  pose proof (wait_nonzero_only_timed s t e s' v R Hs Hp E) as N.
+  destruct (pcs s t); cbn [wait_tmo] in Hw; try discriminate Hw; injection Hw as ->; try (destruct N as (A & B));
+    try (unfold FOREVER in *; congruence). 
+Qed.
+(* the timeout a waiter was called with is carried unchanged through the call *)
+Lemma wait_tmo_stable s t e s' x : reach s -> gstep s t e = Some s' -> wait_tmo (pcs s t) = Some x ->
+  wait_tmo (pcs s' t) = Some x \/ exists v, pcs s' t = PRetV v.
+Proof.
+  intros R Hs Hw. destruct (inv_reach s R) as (((W & _) & _) & _).
+  assert (WT : forall y, wfw y -> wait_tmo (wt_entry x y) = Some x \/ exists v, wt_entry x y = PRetV v).
+  { intros y Wy. rewrite (wt_entry_spec x y Wy). destruct (_ =? 0); [right; eauto|]. destruct (_ =? 0); [right; eauto|].
+    destruct (_ =? 1); left; reflexivity. }
+  destruct (gstep_inv _ _ _ _ Hs) as (p' & s1 & Hts & Hg & ->). sset. rewrite upd_same.
+  destruct (pcs s t); cbn [wait_tmo] in Hw; try discriminate Hw; injection Hw as ->; cbn [tstep] in Hts; cbn [geffect] in Hg.
+  - crack Hts. injection Hts as <-. crack Hg. apply Z.eqb_eq in C0. apply WT. rewrite C0. exact W.
+  - crack Hts. injection Hts as <-. crack Hg. apply andb_true_iff in C0 as [C1 _]. apply Z.eqb_eq in C1.
+    destruct (eok e =? 1); [left; reflexivity|apply WT; rewrite C1; exact W].
+  - destruct (ev_kind e DV_FUTEX_WAIT && (eoff e =? OFF_GEN) && (ea e =? gen) && (eb e =? (if x =? FOREVER then 0 else 1)));
+      [injection Hts as <-; left; reflexivity|]. crack Hts. injection Hts as <-. right. destruct (_ =? _); eauto.
+  - crack Hts. injection Hts as <-. left; reflexivity.
+  - crack Hts. injection Hts as <-. destruct (_ =? _); [destruct (_ =? _); [right; eauto|left; reflexivity]|right; eauto].
+Qed.
+
+(* ================= no thread of the model is ever stuck =================
+   Every thread inside a library call has an enabled step, in every reachable state, with two exceptions that are the
+   client contract: dispatch_group_enter at the maximum count and dispatch_group_leave at count zero (the library traps).
+   For the thread that detaches the notify list the enabled step is the one that moves it forward (a non-NULL head, the
+   store, the exchange, the submission of the next continuation): its loops are bounded by the list it detached.  The clearing
+   loop of dispatch_group_leave and the rmw loops retry only when another thread changed dg_state in between (lock-free).
+   Not in the model: the spin on a NULL dg_notify_head and the spin on do_next of a pusher that has exchanged the tail but not
+   yet linked; the first cannot wait in these runs because the first pusher stores the head before it sets HAS_NOTIFS or
+   fires itself (program order in _dispatch_group_notify), the second waits for a thread that is inside
+   dispatch_group_notify with exactly one store left. *)
+Definition enabled (s : gst) (t : Z) : Prop := exists e s', gstep s t e = Some s'.
+Definition mk (k ord off sz a b ok : Z) : event := mkEv k ord 0 off sz a b ok.
+Ltac go Hpc := unfold gstep; rewrite Hpc; eexists; cbn; rewrite ?Z.eqb_refl; cbn; reflexivity.
+
+Theorem no_stuck s t : reach s ->
+  (pcs s t = PEnter -> fv (word s) <> 1) -> (pcs s t = PLeave -> fv (word s) <> 0) -> enabled s t.
+Proof.
+  intros R CE CL. destruct (inv_reach s R) as (((W & _) & HT1) & (_ & _ & HT2)).
+  pose proof (no_crash_state s t R) as NC. destruct (inv4_reach s R) as (_ & H4).
+  destruct (pcs s t) eqn:Hpc.
+  - exists (mk DVU_CALL 0 0 0 OP_ENTER 0 1). go Hpc.
+  - contradiction.
+  - (* PEnter *)
+    exists (mk DV_SUB MO_ACQUIRE OFF_STATE 4 (u32 (word s)) INTERVAL 1). unfold gstep. rewrite Hpc. cbn [tstep geffect].
+    assert (X : negb (Z.land (word s) VMASK =? VMAX) = true).
+    { rewrite vmax_fv. apply negb_true_iff. apply Z.eqb_neq. apply CE. reflexivity. }
+    eexists. cbn. rewrite Z.eqb_refl, X. cbn. reflexivity.
+  - exists (mk DVU_RET 0 0 0 0 0 1). go Hpc.
+  - (* PLeave *)
+    exists (mk DV_ADD MO_RELEASE OFF_STATE 8 (word s) INTERVAL 1). unfold gstep. rewrite Hpc. cbn [tstep geffect].
+    assert (X : negb (vzero (word s)) = true).
+    { rewrite vzero_fv. apply negb_true_iff. apply Z.eqb_neq. apply CL. reflexivity. }
+    eexists. cbn. rewrite Z.eqb_refl, X. cbn. reflexivity.
+  - (* PLvLoop *)
+    exists (mk DV_CAS MO_RELAXED OFF_STATE 8 (word s) (leave_new old) (if word s =? old then 1 else 0)).
+    unfold gstep. rewrite Hpc. eexists. cbn. rewrite !Z.eqb_refl. cbn. reflexivity.
+  - exists (mk DV_LOAD MO_ACQUIRE OFF_HEAD 8 1 1 1). go Hpc.
+  - exists (mk DV_STORE MO_RELAXED OFF_HEAD 8 0 0 1). go Hpc.
+  - exists (mk DV_XCHG MO_RELEASE OFF_TAIL 8 (tailptr (nq s)) 0 1). go Hpc.
+  - (* PFire: the next continuation of the detached list *)
+    destruct (HT2 t) as (_ & _ & C & _). rewrite Hpc in C. specialize (C eq_refl).
+    destruct (held s t) as [|[i ptr] rest] eqn:Hh; [contradiction|].
+    assert (Np : ptr <> 0) by (apply (H4 t i ptr); rewrite Hh; left; reflexivity).
+    exists (mk DV_XCHG MO_RELEASE OFF_NQ 8 0 ptr (match rest with [] => 1 | _ => 0 end)).
+    unfold gstep. rewrite Hpc. cbn [tstep geffect]. rewrite Hh. eexists. cbn.
+    destruct (Z.eqb_spec ptr 0); [contradiction|]. cbn. rewrite !Z.eqb_refl. cbn. reflexivity.
+  - exists (mk DV_FUTEX_WAKE 0 OFF_GEN 0 2147483647 0 1). go Hpc.
+  - exists (mk DV_LOAD MO_RELAXED OFF_STATE 8 (word s) (word s) 1). go Hpc.
+  - (* PWtCas *)
+    exists (mk DV_CASW (mo_code group_wait_loop_order) OFF_STATE 8 (word s) new 0). go Hpc.
+  - (* PSlow *)
+    exists (mk DV_FUTEX_WAIT 0 OFF_GEN 0 gen (if tmo =? FOREVER then 0 else 1) 1). go Hpc.
+  - (* PSleep: the kernel may always return (interrupted) *)
+    exists (mk DV_FUTEX_WAIT_RET 0 OFF_GEN 0 gen 4 1). unfold gstep. rewrite Hpc. eexists. cbn.
+    rewrite andb_false_r. reflexivity.
+  - exists (mk DV_LOAD MO_ACQUIRE OFF_GEN 4 (f_dg_state_gen (word s)) (f_dg_state_gen (word s)) 1). go Hpc.
+  - (* PRetV *)
+    exists (mk DVU_RET 0 0 0 v 0 1). unfold gstep. rewrite Hpc. eexists. cbn. rewrite eqb_reflx. cbn. reflexivity.
+  - exists (mk DV_XCHG MO_RELEASE OFF_TAIL 8 (tailptr (nq s)) 1 1). go Hpc.
+  - exists (mk DV_STORE MO_RELAXED OFF_HEAD 8 0 dsn 1). go Hpc.
+  - exists (mk DV_LOAD MO_RELAXED OFF_STATE 8 (word s) (word s) 1). go Hpc.
+  - exists (mk DV_CASW (mo_code group_notify_loop_order) OFF_STATE 8 (word s) new 0). go Hpc.
+Qed.
+
+(* the submit loop is bounded by the detached list; the detach itself takes the whole list *)
+Lemma fire_decreases s t e s' k st : pcs s t = PFire k st -> gstep s t e = Some s' ->
+  (length (held s' t) + 1 = length (held s t))%nat /\ (held s' t = [] <-> pcs s' t = wake_tail k st).
+Proof.
+  intros Hp Hs. unfold gstep in Hs. rewrite Hp in Hs. cbn [tstep geffect] in Hs.
+  destruct (ev_kind e DV_XCHG && (eoff e =? OFF_NQ) && negb (eb e =? 0)); [|discriminate].
+  destruct (held s t) as [|[i ptr] rest]; [discriminate|].
+  destruct ((eb e =? ptr) && (eok e =? match rest with [] => 1 | _ :: _ => 0 end)) eqn:C; [|discriminate].
+  apply andb_true_iff in C as [_ C]. apply Z.eqb_eq in C. apply Some_inj in Hs. subst s'. sset. rewrite !upd_same. cbn [length].
+  split; [lia|]. rewrite C. destruct rest; cbn; split; intros X; try reflexivity; try discriminate X.
+  exfalso. revert X. unfold wake_tail. destruct (nz _); [discriminate|destruct k; discriminate].
+Qed.
+(* the clearing loop of dispatch_group_leave retries only if another thread changed dg_state since the value was read *)
+Lemma leave_loop_retry_means_interference s t e s' k old : pcs s t = PLvLoop k old -> gstep s t e = Some s' ->
+  (eok e = 1 /\ word s = old /\ word s' = leave_new old /\ pcs s' t = wake_entry k old) \/
+  (eok e <> 1 /\ word s <> old /\ word s' = word s /\ pcs s' t = lv_loop_entry k (word s)).
+Proof.
+  intros Hp Hs. unfold gstep in Hs. rewrite Hp in Hs. cbn [tstep geffect] in Hs.
+  destruct (ev_is e DV_CAS MO_RELAXED OFF_STATE && (esz e =? 8) && (eb e =? leave_new old)); [|discriminate].
+  destruct ((ea e =? word s) && (eok e =? (if word s =? old then 1 else 0))) eqn:C; [|discriminate].
+  apply andb_true_iff in C as [C1 C2]. apply Z.eqb_eq in C1, C2. apply Some_inj in Hs. subst s'. sset. rewrite upd_same.
+  destruct (Z.eqb_spec (word s) old) as [E|E]; rewrite C2; cbn [Z.eqb Pos.eqb].
+  - left. repeat split; auto. destruct (nz _); reflexivity.
+  - right. rewrite C1. repeat split; auto. discriminate.
 Qed.
